@@ -367,6 +367,28 @@ func TestC18Copy(t *testing.T) {
 			labels = append(labels, "in-place-mutation")
 		}
 
+		// A soft resource of a type without any field has an ID to copy all
+		// the same.
+		if rapid.IntRange(0, 9).Draw(t, "bare") == 0 {
+			bare := &jsonapi.SoftResource{Type: &jsonapi.Type{Name: ts.Name}}
+			bareID := gen.IDString(t, "bare-id", false)
+			bare.SetID(bareID)
+
+			var cp, nw jsonapi.Resource
+
+			if p := oracle.Try(func() { cp, nw = bare.Copy(), bare.New() }); p != nil {
+				t.Fatalf("C18 violated: Copy/New of a resource of a type without fields %s", p)
+			}
+
+			if cp.Get("id") != bareID || cp.GetType().Name != ts.Name || len(cp.Attrs())+len(cp.Rels()) != 0 {
+				t.Fatalf("C18 violated: the copy of a field-less resource %q of type %q has id %q, type %q, %d fields", bareID, ts.Name, cp.Get("id"), cp.GetType().Name, len(cp.Attrs())+len(cp.Rels()))
+			}
+
+			if nw.Get("id") != "" || nw.GetType().Name != ts.Name {
+				t.Fatalf("C18 violated: New() of a field-less resource of type %q has id %q, type %q", ts.Name, nw.Get("id"), nw.GetType().Name)
+			}
+		}
+
 		// One more New or Copy from the source, after everything that
 		// happened to both sides: a resource of the source's type as it is now
 		// (unless the harness wrote into that type behind the library's back).
